@@ -194,3 +194,31 @@ def template_is_identity(template, grp):
     t = template
     return t in (r'\g<0>',) or (grp is not None and t in (
         '\\{}'.format(grp), r'\g<{}>'.format(grp)))
+
+
+def search_alternative_chars(pattern, sigma=SIGMA):
+    """For a pattern that is one character class or a group/branch of
+    alternatives, each a single-character matcher optionally followed by an
+    end anchor: (chars matched anywhere, chars matched only at the end)."""
+    p = list(parse(pattern))
+    if len(p) == 1 and p[0][0] is sre_c.SUBPATTERN:
+        p = list(p[0][1][3])
+    alts = [p]
+    if len(p) == 1 and p[0][0] is sre_c.BRANCH:
+        alts = [list(a) for a in p[0][1][1]]
+    anywhere, at_end = set(), set()
+    for alt in alts:
+        end = False
+        if alt and alt[-1][0] is sre_c.AT and str(alt[-1][1]).endswith(
+                'AT_END'):
+            end = True
+            alt = alt[:-1]
+        if len(alt) != 1:
+            raise AnalysisError('pattern {!r}: alternative is not a single '
+                                'character'.format(pattern))
+        ch = single_matcher_chars(alt[0][0], alt[0][1], sigma)
+        if ch is None:
+            raise AnalysisError('pattern {!r}: alternative is not a single '
+                                'character'.format(pattern))
+        (at_end if end else anywhere).update(ch)
+    return anywhere, at_end - anywhere
